@@ -78,7 +78,7 @@ class Decider:
         cross = res.status == 'sat' or (int(res.digest, 16) % self.cross_every == 0)
         if cross and res.status in ('sat', 'unsat'):
             try:
-                other = smt.cvc5_check(res.smt2, timeout_ms=self.timeout_ms)
+                other = smt.cvc5_check(res.smt2, timeout_ms=min(self.timeout_ms, 10000))
             except Exception as ex:  # noqa: BLE001
                 other = f'error {type(ex).__name__}'
             self.cvc5_checked += 1
